@@ -61,6 +61,8 @@ def stmts(n, ctx):
         if ext == 2:
             # a row/column command: its code ends in `END matrix`, the other user of the END op-code
             out.append(('act', 'set', (('matrix', ('str', 'm'), (('num', 0), None), None),)))
+            # a macro definition: a CONSTANT instruction in any statement position, inside routine bodies too
+            out.append(('K',))
         return tuple(out)
     if depth >= 4:
         return ()
@@ -126,6 +128,9 @@ def _expand(s, counter):
     if k == 'M':
         counter[0] += 1
         return [('print', ('num', counter[0]))]
+    if k == 'K':
+        counter[0] += 1
+        return [('defmacro', 'k%d' % counter[0], ('num', counter[0]))]
     if k == 'if':
         branches = tuple((c, _expand_block(b, counter)) for c, b in s[1])
         els = _expand_block(s[2], counter) if s[2] is not None else None
@@ -139,7 +144,9 @@ def _expand(s, counter):
         return [('assign', w, ('num', 2)),
                 ('repeat', ('while', ('bin', '>', ('var', w), ('num', 0))), body)]
     if k == 'define':
-        return [('define', s[1], s[2], _expand_block(s[3], counter))]
+        counter.append('d')                                   # the second definition of a program is g
+        name = s[1] if counter.count('d') == 1 else 'g'
+        return [('define', name, s[2], _expand_block(s[3], counter))]
     return [s]
 
 
@@ -229,7 +236,8 @@ def extended_programs(max_nodes, rich_nodes=4):
     """Control skeletons with a routine definition in *every* statement position
     the grammar has (inside if and repeat bodies too), every loop kind (incl.
     light iteration and `repeat` forever) around break, return at every depth.
-    Valid = at most one definition, every call textually after its end."""
+    Valid = at most two definitions (the first is f, the second g; only f is called), every call textually
+    after f's end."""
     from . import render
     for n in range(1, max_nodes + 1):
         # the rich alphabet (empty blocks, a row/column command) up to rich_nodes, the plain one above
@@ -237,7 +245,7 @@ def extended_programs(max_nodes, rich_nodes=4):
         for b in blocks(n, top):
             ev = []
             _walk(b, ev)
-            if ev.count('D') > 1:
+            if ev.count('D') > 2:
                 continue
             if 'c' in ev and ('E' not in ev or ev.index('c') < ev.index('E')):
                 continue
